@@ -7,7 +7,7 @@ use hifitime::{Epoch, TimeSeries};
 use proptest::prelude::*;
 use serde::{Deserialize, Serialize};
 
-pub const RULE: &str = "generated (start epoch in one of nine scales, positive step 1 ns .. 40 days, span = n*step + r with n in [0, 2000] and r in {0, 1 ns, step-1 ns, random}, inclusive flag, scale of the end epoch); every yielded item is compared with start + k*step computed in i128 (no accumulation), the number of items with the bound k*step < span (<= for inclusive), then None twice; thorough adds series of 2e6 items with 1-3 ns steps; non-trivial = span not a multiple of the step, span an exact multiple (off-by-one edge), two scales involved, a leap entry or century boundary inside the series, or n = 0; evaluations counts series; distinct = distinct case tuples";
+pub const RULE: &str = "generated (start epoch in one of nine scales, positive step 1 ns .. 40 days, span = n*step + r with n in [0, 2000] and r in {0, 1 ns, step-1 ns, random}, inclusive flag, scale of the end epoch); every yielded item is compared with start + k*step computed in i128 (no accumulation), the number of items with the bound k*step < span (<= for inclusive), then None twice; thorough adds series of 2e6 items with 1-3 ns steps; c15.huge_prefix reads the first 48 items of series of up to 2^78 items (spans to the whole range, steps from 1 ns); c15.long_walk walks one 1 ns series of 2^24 items (thorough: 2^32 + 4096 items, past any 32-bit item counter); non-trivial = span not a multiple of the step, span an exact multiple (off-by-one edge), two scales involved, a leap entry or century boundary inside the series, or n = 0; evaluations counts series; distinct = distinct case tuples";
 
 pub const ASSUMPTIONS: &[&str] = &[
     "the end epoch in another uniform scale or UTC is produced by the model; for ET/TDB ends the span is read from the library's own end - start",
@@ -206,10 +206,85 @@ fn series_oracle(c: &Series) -> Verdict {
     Verdict::Pass(class, true)
 }
 
+// ---------------------------------------------------------------- very long series: the first items
+#[derive(Clone, Debug, Serialize, Deserialize)]
+pub struct Huge {
+    pub start: Ep,
+    pub step: i128,
+    pub span: i128,
+    pub inclusive: bool,
+}
+
+fn huge_strategy() -> BS<Huge> {
+    // spans up to the whole representable range with steps from 1 ns: up to 2^78 items, of which the first 48 are read
+    let start = wunion(vec![(3, epoch_any(&ALL_SCALES)), (1, (0usize..9, log_mag(76)).prop_map(|(s, d)| Ep { s, c: DMIN + NPC + d }).boxed())]);
+    (start, log_mag(78), prop_oneof![2 => log_mag(40), 1 => log_mag(70), 1 => (1i128..=3)], any::<bool>())
+        .prop_map(|(start, span, step, inclusive)| Huge { start, step, span, inclusive })
+        .boxed()
+}
+
+fn huge_oracle(c: &Huge) -> Verdict {
+    let end_c = c.start.c + c.span;
+    if !(c.start.c > DMIN + NPC && end_c < DMAX - NPC) {
+        return Verdict::Skip("a bound would be hit");
+    }
+    let start = c.start.lib();
+    let end = Epoch::from_duration(mk(end_c), SCALES[c.start.s]);
+    let step = mk(c.step);
+    let expected: i128 = if c.inclusive { c.span / c.step + 1 } else { (c.span + c.step - 1) / c.step };
+    let mut it = if c.inclusive { lib!(TimeSeries::inclusive(start, end, step)) } else { lib!(TimeSeries::exclusive(start, end, step)) };
+    for k in 0..48i128 {
+        let item = lib!(it.next());
+        if k < expected {
+            let want = c.start.c + k * c.step;
+            ensure!(matches!(item, Some(e) if e.time_scale == SCALES[c.start.s] && e.duration.to_parts() == mk(want).to_parts()), "item {} of a series of {} items (span {} ns, step {} ns, inclusive {}) is {:?}, want count {}", k, expected, c.span, c.step, c.inclusive, item.map(|e| e.duration.to_parts()), want);
+        } else {
+            ensure!(item.is_none(), "item {} yielded past the end of a series of {} items", k, expected);
+            break;
+        }
+    }
+    let class = if expected > (1i128 << 63) { "items>=2^63" } else if expected > (1i128 << 32) { "items>=2^32" } else if expected > 2_100_000 { "items>2.1e6" } else { "short" };
+    Verdict::Pass(class, class != "short")
+}
+
+// ---------------------------------------------------------------- one long walk (item counter width)
+#[derive(Clone, Debug, Serialize, Deserialize)]
+pub struct Walk {
+    pub items: u64,
+}
+
+fn walk_enum(t: Tier, shard: usize, sink: &mut dyn FnMut(Walk) -> bool) {
+    // quick: 2^24 items; thorough: past 2^32 items (a 32-bit item counter would wrap or overflow there)
+    if shard == 0 {
+        sink(Walk { items: if t == Tier::Thorough { (1u64 << 32) + 4096 } else { 1u64 << 24 } });
+    }
+}
+
+fn walk_oracle(c: &Walk) -> Verdict {
+    let start = Epoch::from_duration(mk(-1000), SCALES[S_TAI]);
+    let end = Epoch::from_duration(mk(-1000 + c.items as i128), SCALES[S_TAI]);
+    let it = lib!(TimeSeries::exclusive(start, end, mk(1)));
+    let mut k: u64 = 0;
+    for e in it {
+        let want = -1000 + k as i128;
+        if e.duration.to_parts() != mk(want).to_parts() {
+            return Verdict::Fail(format!("item {} of a 1 ns series has parts {:?}, want count {}", k, e.duration.to_parts(), want));
+        }
+        k += 1;
+        if k > c.items {
+            return Verdict::Fail(format!("the series yields more than its {} items", c.items));
+        }
+    }
+    ensure!(k == c.items, "a 1 ns series over {} ns ended after {} items", c.items, k);
+    Verdict::Pass(if c.items > u32::MAX as u64 { "past-2^32-items" } else { "2^24-items" }, true)
+}
+
 pub fn subs() -> Vec<Box<dyn DynSub>> {
     vec![
         sub(Sub { name: "c15.series", source: Source::Gen(series_strategy, 192_000, 1_000_000), oracle: series_oracle, known: no_known, hang_is_violation: true }),
         sub(Sub { name: "c15.long_series", source: Source::Gen(long_series_strategy, 64, 640), oracle: series_oracle, known: no_known, hang_is_violation: true }),
+        sub(Sub { name: "c15.huge_prefix", source: Source::Gen(huge_strategy, 400_000, 4_000_000), oracle: huge_oracle, known: no_known, hang_is_violation: true }),
+        sub(Sub { name: "c15.long_walk", source: Source::Enum(walk_enum, |_| true), oracle: walk_oracle, known: no_known, hang_is_violation: false }),
         crate::props::fuzzsub::fc15(),
     ]
 }
